@@ -1,7 +1,1055 @@
-//! C17 — correspondence harness (stub; see /verif/AGENT_GUIDE.md).
+//! C17 — sync bookkeeping structures vs their models. Four sub-modes (`opts.extra[0]`):
+//!
+//! `orphan`     real `ckb_chain::OrphanBlockPool` (hook re-export)
+//!     insert <id> <parent> <epoch>      -> len=<n> leaders=<ids>
+//!     release <p>                       -> <released ids, sorted, duplicates kept> len=.. leaders=..
+//!     expire <tip_epoch>                -> <released ids> len=.. leaders=..
+//! `skip`       real `ckb_shared::types::HeaderIndexView::{build_skip, get_ancestor}` over a header
+//!              tree kept by the harness; the locator loop of `ActiveChain::get_locator` is replayed
+//!              by the harness on top of the real `get_ancestor` (ActiveChain itself needs a node)
+//!     hdr <id> <number> <parent>        -> skip=<id|none>          (build_skip)
+//!     main <tip id>                     -> ok <chain length>        (main chain for the fast scanner)
+//!     anc <id> <number> <scan 0|1>      -> <id|none>
+//!     loc <id> <scan 0|1>               -> <ids>
+//! `inflight`   real `ckb_sync::InflightBlocks` (hook re-export + read-only dump), faketime clock
+//!     insert <now> <peer> <number> <hash> -> true|false <dump>
+//!     rmpeer <peer>                     -> <count> <dump>
+//!     rmblock <now> <number> <hash>     -> true|false <dump>
+//!     prune <now> <tip>                 -> disconnect=<peers> <dump>
+//!     mark <now> <tip>                  -> ok <dump>
+//!     consts                            -> the constants the model was generated with
+//! `headermap`  real `ckb_shared::HeaderMap` (hook: no background task, synchronous spill, tier views)
+//!     cfg <limit items>                 -> ok
+//!     insert <k> <v>                    -> hit|miss mem=<keys LRU order> back=<keys>
+//!     get|contains|remove <k>           -> <v|none>|true|false|ok mem=.. back=..
+//!     spill                             -> ok mem=.. back=..
 use crate::common::*;
+use ckb_chain::{LonelyBlockHash, OrphanBlockPool};
+use ckb_network::PeerIndex;
+use ckb_shared::types::HeaderIndexView;
+use ckb_shared::HeaderMap;
+use ckb_sync::InflightBlocks;
+use ckb_types::core::EpochNumberWithFraction;
+use ckb_types::packed::Byte32;
+use ckb_types::{BlockNumberAndHash, U256};
+use std::collections::{BTreeMap, BTreeSet, HashMap};
+use std::sync::atomic::AtomicBool;
+use std::sync::Arc;
 
-pub fn run(_opts: &Opts) {
-    eprintln!("C17: harness not implemented in this crate");
-    std::process::exit(2);
+fn h(id: u64) -> Byte32 {
+    let mut b = [0u8; 32];
+    b[..8].copy_from_slice(&id.to_le_bytes());
+    b[31] = 0xC1;
+    Byte32::new(b)
+}
+
+fn unh(x: &Byte32) -> u64 {
+    use ckb_types::prelude::Entity;
+    u64::from_le_bytes(x.as_slice()[..8].try_into().unwrap())
+}
+
+fn show<I: IntoIterator<Item = u64>>(it: I) -> String {
+    let v: Vec<String> = it.into_iter().map(|x| x.to_string()).collect();
+    if v.is_empty() { "-".into() } else { v.join(",") }
+}
+
+// =================================================================================================
+// orphan
+// =================================================================================================
+
+struct OrphanSim {
+    pool: OrphanBlockPool,
+    /// the plain model: pooled id -> (parent, epoch)
+    plain: BTreeMap<u64, (u64, u64)>,
+}
+
+impl OrphanSim {
+    fn new() -> Self {
+        OrphanSim { pool: OrphanBlockPool::with_capacity(16), plain: BTreeMap::new() }
+    }
+    fn tail(&self) -> String {
+        let l: BTreeSet<u64> = self.pool.clone_leaders().iter().map(unh).collect();
+        format!("len={} leaders={}", self.pool.len(), show(l))
+    }
+    fn plain_leaders(&self) -> BTreeSet<u64> {
+        self.plain.values().map(|(p, _)| *p).filter(|p| !self.plain.contains_key(p)).collect()
+    }
+    fn plain_desc(&self, p: u64) -> BTreeSet<u64> {
+        let mut out = BTreeSet::new();
+        let mut frontier = vec![p];
+        while let Some(q) = frontier.pop() {
+            for (id, (par, _)) in self.plain.iter() {
+                if *par == q && out.insert(*id) {
+                    frontier.push(*id);
+                }
+            }
+        }
+        out
+    }
+    fn check(&self, out: &mut Out, what: &str) {
+        let l: BTreeSet<u64> = self.pool.clone_leaders().iter().map(unh).collect();
+        if l != self.plain_leaders() {
+            out.oracle_fail("orphan-leaders", &format!("{what}: leaders={} expected={}", show(l), show(self.plain_leaders())));
+        }
+        if self.pool.len() != self.plain.len() {
+            out.oracle_fail("orphan-len", &format!("{what}: len={} expected={}", self.pool.len(), self.plain.len()));
+        }
+    }
+    fn insert(&mut self, out: &mut Out, id: u64, parent: u64, epoch: u64) {
+        self.pool.insert(LonelyBlockHash {
+            block_number_and_hash: BlockNumberAndHash::new(id, h(id)),
+            parent_hash: h(parent),
+            epoch_number: epoch,
+            switch: None,
+            verify_callback: None,
+        });
+        self.plain.insert(id, (parent, epoch));
+        let op = format!("insert {id} {parent} {epoch}");
+        out.op(&op, &self.tail());
+        self.check(out, &op);
+    }
+    fn released(&mut self, out: &mut Out, op: &str, blocks: Vec<LonelyBlockHash>, expect: BTreeSet<u64>, judge: bool) {
+        let mut ids: Vec<u64> = blocks.iter().map(|b| unh(&b.hash())).collect();
+        ids.sort();
+        let set: BTreeSet<u64> = ids.iter().copied().collect();
+        if set.len() != ids.len() {
+            out.oracle_fail("orphan-released-twice", &format!("{op}: {}", show(ids.clone())));
+        }
+        for b in &blocks {
+            let id = unh(&b.hash());
+            if let Some((p, _)) = self.plain.get(&id) {
+                if unh(&b.parent_hash()) != *p {
+                    out.oracle_fail("orphan-released-wrong-block", &format!("{op}: id {id}"));
+                }
+            }
+        }
+        if judge && set != expect {
+            out.oracle_fail("orphan-release-not-descendants", &format!("{op}: released={} descendants={}", show(set.clone()), show(expect)));
+        }
+        for id in &set {
+            self.plain.remove(id);
+        }
+        out.op(op, &format!("{} {}", show(ids), self.tail()));
+        self.check(out, op);
+    }
+    fn release(&mut self, out: &mut Out, p: u64) {
+        let expect = self.plain_desc(p);
+        // the property speaks about releasing a parent that is not itself pooled
+        let judge = !self.plain.contains_key(&p);
+        let blocks = self.pool.remove_blocks_by_parent(&h(p));
+        self.released(out, &format!("release {p}"), blocks, expect, judge);
+    }
+    fn expire(&mut self, out: &mut Out, tip_epoch: u64) {
+        let mut expect = BTreeSet::new();
+        for l in self.plain_leaders() {
+            // siblings share their epoch in every generated history
+            let e = self.plain.values().find(|(p, _)| *p == l).map(|(_, e)| *e).unwrap();
+            if e + ckb_chain::VERIF_ORPHAN_EXPIRED_EPOCH < tip_epoch {
+                expect.extend(self.plain_desc(l));
+            }
+        }
+        let blocks = self.pool.clean_expired_blocks(tip_epoch);
+        self.released(out, &format!("expire {tip_epoch}"), blocks, expect, true);
+    }
+}
+
+/// a random forest: block i (1..=n) has parent par[i] (a lower id, or a missing root >= 100);
+/// epoch = epoch of the parent's children group (siblings share it), non-decreasing downwards
+fn gen_forest(rng: &mut Rng, n: u64) -> Vec<(u64, u64, u64)> {
+    let mut blocks: Vec<(u64, u64, u64)> = vec![];
+    let mut child_epoch: HashMap<u64, u64> = HashMap::new();
+    for i in 1..=n {
+        let parent = if i == 1 || rng.chance(1, 5) { 100 + rng.below(3) } else { rng.range(1, i - 1) };
+        let base = blocks.iter().find(|b| b.0 == parent).map(|b| b.2).unwrap_or(rng.below(6));
+        let e = *child_epoch.entry(parent).or_insert(base + rng.below(3));
+        blocks.push((i, parent, e));
+    }
+    blocks
+}
+
+fn orphan_random(out: &mut Out, rng: &mut Rng, n_ops: usize) {
+    let n = rng.range(3, 12);
+    let forest = gen_forest(rng, n);
+    out.begin_case(&format!("orphan random n={n}"));
+    let mut sim = OrphanSim::new();
+    let (mut rel_nonempty, mut exp_nonempty) = (0, 0);
+    for _ in 0..n_ops {
+        match rng.below(10) {
+            0..=5 => {
+                let b = *rng.pick(&forest);
+                sim.insert(out, b.0, b.1, b.2);
+                out.count("orphan-insert");
+            }
+            6..=8 => {
+                // a leader, a pooled block, a missing root, or anything
+                let leaders: Vec<u64> = sim.plain_leaders().into_iter().collect();
+                let p = if !leaders.is_empty() && rng.chance(2, 3) { *rng.pick(&leaders) } else if rng.chance(1, 2) { rng.range(0, n) } else { 100 + rng.below(3) };
+                let before = sim.plain.len();
+                sim.release(out, p);
+                if sim.plain.len() + 1 < before {
+                    rel_nonempty += 1;
+                }
+                out.count("orphan-release");
+            }
+            _ => {
+                let e = rng.below(16);
+                let before = sim.plain.len();
+                sim.expire(out, e);
+                if sim.plain.len() < before {
+                    exp_nonempty += 1;
+                }
+                out.count("orphan-expire");
+            }
+        }
+    }
+    if rel_nonempty > 0 && exp_nonempty > 0 {
+        out.nontrivial(format!("orphan {forest:?}"));
+    }
+}
+
+/// every op sequence up to `max_len` over a small forest
+fn orphan_exhaustive(out: &mut Out, forest: &[(u64, u64, u64)], roots: &[u64], max_len: usize) {
+    let mut alphabet: Vec<(u8, u64)> = vec![];
+    for (i, _) in forest.iter().enumerate() {
+        alphabet.push((0, i as u64));
+    }
+    for b in forest {
+        alphabet.push((1, b.0));
+    }
+    for r in roots {
+        alphabet.push((1, *r));
+    }
+    alphabet.push((2, 9));
+    alphabet.push((2, 3));
+    let mut idx = vec![0usize; max_len];
+    for len in 1..=max_len {
+        idx.iter_mut().for_each(|i| *i = 0);
+        'seqs: loop {
+            out.begin_case(&format!("orphan exhaustive {:?}", &idx[..len]));
+            let mut sim = OrphanSim::new();
+            let mut rel = false;
+            for i in &idx[..len] {
+                match alphabet[*i] {
+                    (0, k) => {
+                        let b = forest[k as usize];
+                        sim.insert(out, b.0, b.1, b.2)
+                    }
+                    (1, p) => {
+                        let before = sim.plain.len();
+                        sim.release(out, p);
+                        rel |= sim.plain.len() + 1 < before;
+                    }
+                    (_, e) => sim.expire(out, e),
+                }
+            }
+            if rel {
+                out.nontrivial(format!("orphan-x {:?}", &idx[..len]));
+            }
+            let mut k = len;
+            loop {
+                if k == 0 {
+                    break 'seqs;
+                }
+                k -= 1;
+                idx[k] += 1;
+                if idx[k] < alphabet.len() {
+                    break;
+                }
+                idx[k] = 0;
+            }
+        }
+    }
+}
+
+fn orphan_replay(out: &mut Out, ops: &[String]) {
+    let mut sim = OrphanSim::new();
+    for line in ops {
+        let t: Vec<&str> = line.split_whitespace().collect();
+        match t[0] {
+            "case" => {
+                out.begin_case(&t[2..].join(" "));
+                sim = OrphanSim::new();
+            }
+            "insert" => sim.insert(out, t[1].parse().unwrap(), t[2].parse().unwrap(), t[3].parse().unwrap()),
+            "release" => sim.release(out, t[1].parse().unwrap()),
+            "expire" => sim.expire(out, t[1].parse().unwrap()),
+            other => panic!("C17 orphan replay: unknown op {other}"),
+        }
+    }
+}
+
+fn run_orphan(opts: &Opts, out: &mut Out) -> &'static str {
+    let mut rng = Rng::new(opts.seed);
+    let (cases, xlen) = if opts.thorough() { (20_000, 5) } else { (2_000, 4) };
+    // chain 1<-2<-3 with a sibling 4 of 2; root 100 missing
+    orphan_exhaustive(out, &[(1, 100, 1), (2, 1, 1), (3, 2, 2), (4, 1, 1)], &[100, 7], xlen);
+    // two trees
+    orphan_exhaustive(out, &[(1, 100, 0), (2, 1, 3), (3, 101, 5), (4, 3, 5)], &[100, 101], xlen.min(4));
+    for _ in 0..cases * opts.scale as usize {
+        orphan_random(out, &mut rng, 40);
+    }
+    "orphan: a release that returned >= 2 blocks (exhaustive: distinct by op sequence; random: additionally an expiry that removed blocks, distinct by forest)"
+}
+
+// =================================================================================================
+// skip
+// =================================================================================================
+
+struct SkipSim {
+    hdrs: HashMap<Byte32, HeaderIndexView>,
+    parent: HashMap<u64, (u64, u64)>, // id -> (number, parent id)
+    main: Vec<u64>,
+}
+
+impl SkipSim {
+    fn new() -> Self {
+        SkipSim { hdrs: HashMap::new(), parent: HashMap::new(), main: vec![] }
+    }
+    fn scanner(&self, on: bool) -> impl Fn(u64, BlockNumberAndHash) -> Option<HeaderIndexView> + '_ {
+        move |number, cur: BlockNumberAndHash| {
+            if on && (cur.number as usize) < self.main.len() && h(self.main[cur.number as usize]) == cur.hash {
+                self.main.get(number as usize).and_then(|id| self.hdrs.get(&h(*id)).cloned())
+            } else {
+                None
+            }
+        }
+    }
+    fn hdr(&mut self, out: &mut Out, id: u64, number: u64, parent: u64) {
+        let mut v = HeaderIndexView::new(h(id), number, EpochNumberWithFraction::new(0, 0, 1), 0, h(parent), U256::from(number));
+        {
+            let hdrs = &self.hdrs;
+            v.build_skip(0, |hash, _| hdrs.get(hash).cloned(), |_, _| None);
+        }
+        let skip = v.skip_hash().map(unh);
+        // oracle: the recorded skip pointer is the ancestor at some strictly lower number reached by parent links
+        if let Some(s) = skip {
+            let sn = self.parent.get(&s).map(|x| x.0);
+            let by_walk = sn.and_then(|sn| self.walk(parent, number - 1, sn));
+            if number == 0 || by_walk != Some(s) {
+                out.oracle_fail("skip-pointer-not-ancestor", &format!("hdr {id} number {number}: skip={s}"));
+            }
+        } else if number > 0 {
+            out.oracle_fail("skip-pointer-missing", &format!("hdr {id} number {number}"));
+        }
+        self.hdrs.insert(h(id), v);
+        self.parent.insert(id, (number, parent));
+        out.op(&format!("hdr {id} {number} {parent}"), &format!("skip={}", skip.map(|s| s.to_string()).unwrap_or("none".into())));
+    }
+    /// parent walk from header `id` (whose number is `n`) down to number `target`
+    fn walk(&self, mut id: u64, mut n: u64, target: u64) -> Option<u64> {
+        if target > n {
+            return None;
+        }
+        while n > target {
+            id = self.parent.get(&id)?.1;
+            n -= 1;
+        }
+        self.parent.get(&id).map(|_| id)
+    }
+    fn set_main(&mut self, out: &mut Out, tip: u64) {
+        let (n, _) = self.parent[&tip];
+        let mut ids = vec![tip];
+        let mut cur = tip;
+        for _ in 0..n {
+            cur = self.parent[&cur].1;
+            ids.push(cur);
+        }
+        ids.reverse();
+        self.main = ids;
+        out.op(&format!("main {tip}"), &format!("ok {}", self.main.len()));
+    }
+    fn real_anc(&self, id: u64, number: u64, scan: bool) -> Option<u64> {
+        let v = self.hdrs.get(&h(id))?;
+        let tip = self.main.len().saturating_sub(1) as u64;
+        v.get_ancestor(tip, number, |hash, _| self.hdrs.get(hash).cloned(), self.scanner(scan)).map(|x| unh(&x.hash()))
+    }
+    fn anc(&self, out: &mut Out, id: u64, number: u64, scan: bool) {
+        let got = self.real_anc(id, number, scan);
+        let (n, _) = self.parent[&id];
+        let want = self.walk(id, n, number);
+        if got != want {
+            out.oracle_fail("ancestor-not-parent-walk", &format!("anc {id} {number} scan={scan}: got={got:?} walk={want:?}"));
+        }
+        out.op(&format!("anc {id} {number} {}", scan as u8), &got.map(|x| x.to_string()).unwrap_or("none".into()));
+    }
+    /// `ActiveChain::get_locator` (sync/src/types/mod.rs) replayed over the real `get_ancestor`
+    fn loc(&self, out: &mut Out, id: u64, scan: bool) {
+        const ONE_DAY_BLOCK_NUMBER: u64 = 8192;
+        let (start_number, _) = self.parent[&id];
+        let mut step = 1u64;
+        let mut locator: Vec<u64> = vec![];
+        let mut index = start_number;
+        let mut base = id;
+        let mut indices = vec![];
+        loop {
+            let hh = self.real_anc(base, index, scan).expect("index calculated in get_locator");
+            locator.push(hh);
+            indices.push(index);
+            if locator.len() >= 10 {
+                step <<= 1;
+            }
+            if index < step * 2 {
+                if locator.len() < 52 && index > ONE_DAY_BLOCK_NUMBER {
+                    index >>= 1;
+                    base = hh;
+                    continue;
+                }
+                if index != 0 {
+                    locator.push(self.main.first().copied().unwrap_or(0));
+                }
+                break;
+            }
+            index -= step;
+            base = hh;
+        }
+        // oracle: every entry is the ancestor of the start by parent walk, numbers strictly decrease
+        for (k, idx) in indices.iter().enumerate() {
+            if self.walk(id, start_number, *idx) != Some(locator[k]) {
+                out.oracle_fail("locator-not-parent-walk", &format!("loc {id}: entry {k} index {idx} = {}", locator[k]));
+            }
+            if k > 0 && indices[k - 1] <= *idx {
+                out.oracle_fail("locator-not-decreasing", &format!("loc {id}: {indices:?}"));
+            }
+        }
+        out.op(&format!("loc {id} {}", scan as u8), &show(locator));
+    }
+}
+
+fn skip_case(out: &mut Out, rng: &mut Rng, n_hdrs: u64, n_q: usize) {
+    out.begin_case(&format!("skip tree n={n_hdrs}"));
+    let mut sim = SkipSim::new();
+    sim.hdr(out, 0, 0, 0);
+    // a tree: mostly extend the latest tip, sometimes fork from a random earlier header
+    let mut numbers: Vec<u64> = vec![0];
+    let mut last = 0u64;
+    let mut forks = 0;
+    for id in 1..n_hdrs {
+        let parent = if rng.chance(1, 25) { forks += 1; rng.below(id) } else { last };
+        let n = numbers[parent as usize] + 1;
+        sim.hdr(out, id, n, parent);
+        numbers.push(n);
+        last = id;
+    }
+    // main chain: the highest header
+    let tip = (0..n_hdrs).max_by_key(|i| numbers[*i as usize]).unwrap();
+    sim.set_main(out, tip);
+    for _ in 0..n_q {
+        let id = if rng.chance(1, 3) { n_hdrs - 1 - rng.below(n_hdrs.min(5)) } else { rng.below(n_hdrs) };
+        let n = numbers[id as usize];
+        let target = match rng.below(6) {
+            0 => 0,
+            1 => n,
+            2 => n + 1 + rng.below(3),
+            3 => n.saturating_sub(rng.below(4)),
+            _ => rng.below(n + 1),
+        };
+        sim.anc(out, id, target, rng.chance(1, 2));
+        out.count("skip-anc");
+    }
+    for _ in 0..(n_q / 10).max(2) {
+        let id = if rng.chance(1, 2) { tip } else { rng.below(n_hdrs) };
+        sim.loc(out, id, rng.chance(1, 2));
+        out.count("skip-loc");
+    }
+    if forks > 0 {
+        out.nontrivial(format!("skip n={n_hdrs} forks={forks} tip={tip}"));
+    }
+}
+
+fn skip_replay(out: &mut Out, ops: &[String]) {
+    let mut sim = SkipSim::new();
+    for line in ops {
+        let t: Vec<&str> = line.split_whitespace().collect();
+        match t[0] {
+            "case" => {
+                out.begin_case(&t[2..].join(" "));
+                sim = SkipSim::new();
+            }
+            "hdr" => sim.hdr(out, t[1].parse().unwrap(), t[2].parse().unwrap(), t[3].parse().unwrap()),
+            "main" => sim.set_main(out, t[1].parse().unwrap()),
+            "anc" => sim.anc(out, t[1].parse().unwrap(), t[2].parse().unwrap(), t[3] == "1"),
+            "loc" => sim.loc(out, t[1].parse().unwrap(), t[2] == "1"),
+            other => panic!("C17 skip replay: unknown op {other}"),
+        }
+    }
+}
+
+fn run_skip(opts: &Opts, out: &mut Out) -> &'static str {
+    let mut rng = Rng::new(opts.seed);
+    let (small, big) = if opts.thorough() { (3_000, 12) } else { (300, 2) };
+    for _ in 0..small * opts.scale as usize {
+        let n = rng.range(2, 70);
+        skip_case(out, &mut rng, n, 30);
+    }
+    for k in 0..big * opts.scale as usize {
+        let n = if k == 0 { 5_000 } else { rng.range(500, 5_000) };
+        skip_case(out, &mut rng, n, 200);
+    }
+    // one long straight chain above ONE_DAY_BLOCK_NUMBER for the locator's halving branch
+    {
+        out.begin_case("skip long chain");
+        let mut sim = SkipSim::new();
+        let n = if opts.thorough() { 40_000 } else { 20_000 };
+        sim.hdr(out, 0, 0, 0);
+        for id in 1..n {
+            sim.hdr(out, id, id, id - 1);
+        }
+        sim.set_main(out, n - 1);
+        sim.loc(out, n - 1, false);
+        sim.loc(out, n - 1, true);
+        sim.loc(out, n - 7, false);
+        sim.anc(out, n - 1, 1, false);
+        sim.anc(out, n - 1, 8191, false);
+        out.nontrivial("skip long".into());
+    }
+    "skip: trees with at least one fork (distinct by size, fork count and tip)"
+}
+
+// =================================================================================================
+// inflight
+// =================================================================================================
+
+type Key = (u64, u64);
+
+#[derive(Clone, Default, PartialEq, Debug)]
+struct Dump {
+    states: BTreeMap<Key, (u64, u64)>,            // block -> (peer, ts)
+    scheds: BTreeMap<u64, (usize, BTreeSet<Key>)>, // peer -> (task_count, blocks)
+    trace: BTreeMap<Key, u64>,
+    restart: u64,
+    div: (u64, u64, u64),
+}
+
+fn key(b: &BlockNumberAndHash) -> Key {
+    (b.number, unh(&b.hash))
+}
+
+fn bnh(k: Key) -> BlockNumberAndHash {
+    BlockNumberAndHash::new(k.0, h(k.1))
+}
+
+fn dump_of(t: &InflightBlocks) -> Dump {
+    let (st, sc, tr, restart) = t.verif_dump();
+    Dump {
+        states: st.iter().map(|(k, p, ts)| (key(k), (p.value() as u64, *ts))).collect(),
+        scheds: sc.iter().map(|(p, tc, bs)| (p.value() as u64, (*tc, bs.iter().map(key).collect()))).collect(),
+        trace: tr.iter().map(|(k, t)| (key(k), *t)).collect(),
+        restart,
+        div: t.division_point(),
+    }
+}
+
+fn dump_str(d: &Dump) -> String {
+    let a: Vec<String> = d.states.iter().map(|(k, (p, ts))| format!("{}:{}@{}/{}", k.0, k.1, p, ts)).collect();
+    let b: Vec<String> = d
+        .scheds
+        .iter()
+        .map(|(p, (tc, bs))| format!("{}:{}:[{}]", p, tc, bs.iter().map(|k| format!("{}:{}", k.0, k.1)).collect::<Vec<_>>().join(",")))
+        .collect();
+    let c: Vec<String> = d.trace.iter().map(|(k, t)| format!("{}:{}/{}", k.0, k.1, t)).collect();
+    let j = |v: Vec<String>| if v.is_empty() { "-".to_string() } else { v.join(";") };
+    format!("states={} scheds={} trace={} restart={} div={},{},{}", j(a), j(b), j(c), d.restart, d.div.0, d.div.1, d.div.2)
+}
+
+struct InflightSim {
+    t: InflightBlocks,
+    guard: ckb_systemtime::FaketimeGuard,
+    timeout: u64,
+}
+
+impl InflightSim {
+    fn new() -> Self {
+        InflightSim { t: InflightBlocks::default(), guard: ckb_systemtime::faketime(), timeout: ckb_constant::sync::BLOCK_DOWNLOAD_TIMEOUT }
+    }
+    /// invariants of the property on the implementation's own state
+    fn check(&self, out: &mut Out, what: &str, d: &Dump) {
+        let mut seen: HashMap<Key, u64> = HashMap::new();
+        for (p, (_, bs)) in &d.scheds {
+            for b in bs {
+                if let Some(q) = seen.insert(*b, *p) {
+                    out.oracle_fail("inflight-two-peers", &format!("{what}: block {b:?} listed for peers {q} and {p}"));
+                }
+                match d.states.get(b) {
+                    Some((sp, _)) if sp == p => {}
+                    other => out.oracle_fail("inflight-listed-not-in-flight", &format!("{what}: block {b:?} listed for {p}, state {other:?}")),
+                }
+            }
+        }
+    }
+    fn insert(&mut self, out: &mut Out, now: u64, peer: u64, k: Key) {
+        self.guard.set_faketime(now);
+        let before = dump_of(&self.t);
+        let r = self.t.insert(PeerIndex::new(peer as usize), bnh(k));
+        let d = dump_of(&self.t);
+        let op = format!("insert {now} {peer} {} {}", k.0, k.1);
+        if before.states.contains_key(&k) && (r || d != before) {
+            out.oracle_fail("inflight-reassigned", &format!("{op}: block already in flight from {:?}", before.states.get(&k)));
+        }
+        if !before.states.contains_key(&k) && (!r || d.states.get(&k) != Some(&(peer, now))) {
+            out.oracle_fail("inflight-insert-lost", &op);
+        }
+        out.op(&op, &format!("{r} {}", dump_str(&d)));
+        self.check(out, &op, &d);
+    }
+    fn rmpeer(&mut self, out: &mut Out, peer: u64) {
+        let before = dump_of(&self.t);
+        let n = self.t.remove_by_peer(PeerIndex::new(peer as usize));
+        let d = dump_of(&self.t);
+        let op = format!("rmpeer {peer}");
+        match before.scheds.get(&peer) {
+            Some((_, listed)) => {
+                let mut want = before.clone();
+                want.scheds.remove(&peer);
+                for b in listed {
+                    want.states.remove(b);
+                }
+                if n != listed.len() || d.states != want.states || d.scheds != want.scheds {
+                    out.oracle_fail("inflight-rmpeer-not-exact", &format!("{op}: count={n} listed={}", listed.len()));
+                }
+            }
+            None => {
+                if n != 0 || d != before {
+                    out.oracle_fail("inflight-rmpeer-untracked-changed", &op);
+                }
+            }
+        }
+        out.op(&op, &format!("{n} {}", dump_str(&d)));
+        self.check(out, &op, &d);
+    }
+    fn rmblock(&mut self, out: &mut Out, now: u64, k: Key) {
+        self.guard.set_faketime(now);
+        let before = dump_of(&self.t);
+        let r = self.t.remove_by_block(bnh(k));
+        let d = dump_of(&self.t);
+        let op = format!("rmblock {now} {} {}", k.0, k.1);
+        let mut want_states = before.states.clone();
+        let was = want_states.remove(&k).is_some();
+        let lists = |x: &Dump| -> BTreeMap<u64, BTreeSet<Key>> { x.scheds.iter().map(|(p, (_, bs))| (*p, bs.clone())).collect() };
+        let mut want_lists = lists(&before);
+        for bs in want_lists.values_mut() {
+            bs.remove(&k);
+        }
+        if r != was || d.states != want_states || lists(&d) != want_lists {
+            out.oracle_fail("inflight-rmblock-not-exact", &format!("{op}: returned {r}, was in flight {was}"));
+        }
+        out.op(&op, &format!("{r} {}", dump_str(&d)));
+        self.check(out, &op, &d);
+    }
+    fn prune(&mut self, out: &mut Out, now: u64, tip: u64) {
+        self.guard.set_faketime(now);
+        let before = dump_of(&self.t);
+        let dis = self.t.prune(tip);
+        let d = dump_of(&self.t);
+        let op = format!("prune {now} {tip}");
+        // exactly the timed-out requests within tip+20 and the requests whose slow mark expired go
+        let mut want = before.states.clone();
+        let mut gone: BTreeSet<Key> = BTreeSet::new();
+        for (k, (_, ts)) in &before.states {
+            if k.0 <= tip + 20 && ts + self.timeout < now {
+                gone.insert(*k);
+            }
+        }
+        for (k, t) in &before.trace {
+            if !gone.contains(k) && now > before.div.2 + t {
+                gone.insert(*k);
+            }
+        }
+        for k in &gone {
+            want.remove(k);
+        }
+        if d.states != want {
+            out.oracle_fail("inflight-prune-not-exact", &format!("{op}: states after={:?} expected={:?}", d.states.keys().collect::<Vec<_>>(), want.keys().collect::<Vec<_>>()));
+        }
+        for (p, (_, bs)) in &d.scheds {
+            let old = before.scheds.get(p).map(|x| x.1.clone()).unwrap_or_default();
+            let keep: BTreeSet<Key> = old.iter().filter(|b| d.states.contains_key(b)).copied().collect();
+            if *bs != keep {
+                out.oracle_fail("inflight-prune-list-not-exact", &format!("{op}: peer {p}"));
+            }
+        }
+        let ds: BTreeSet<u64> = dis.iter().map(|p| p.value() as u64).collect();
+        out.op(&op, &format!("disconnect={} {}", show(ds), dump_str(&d)));
+        self.check(out, &op, &d);
+    }
+    fn mark(&mut self, out: &mut Out, now: u64, tip: u64) {
+        self.guard.set_faketime(now);
+        let before = dump_of(&self.t);
+        self.t.mark_slow_block(tip);
+        let d = dump_of(&self.t);
+        let op = format!("mark {now} {tip}");
+        if d.states != before.states || d.scheds != before.scheds {
+            out.oracle_fail("inflight-mark-changed-table", &op);
+        }
+        out.op(&op, &format!("ok {}", dump_str(&d)));
+    }
+}
+
+fn inflight_case(out: &mut Out, rng: &mut Rng, n_ops: usize, long: bool) {
+    let peers = rng.range(2, 8);
+    let blocks = rng.range(3, 14);
+    out.begin_case(&format!("inflight peers={peers} blocks={blocks} ops={n_ops}"));
+    let mut sim = InflightSim::new();
+    let mut now = 100_000u64;
+    let mut tip = 0u64;
+    let (mut timeouts, mut refused, mut evicted) = (0, 0, 0);
+    let pick_block = |rng: &mut Rng, tip: u64| -> Key {
+        let n = match rng.below(6) {
+            0 => tip + 19 + rng.below(4), // around the tip+20 edge
+            1 => tip + 1,
+            _ => tip + rng.below(blocks) + 1,
+        };
+        // two hashes per number: forks
+        (n, n * 10 + rng.below(2))
+    };
+    for _ in 0..n_ops {
+        now += match rng.below(8) {
+            0 => 0,
+            1 => rng.range(29_990, 30_010), // around BLOCK_DOWNLOAD_TIMEOUT
+            2 => rng.range(1_400, 1_600),   // around the slow-mark limit
+            3 => rng.range(900, 1_300),     // around fast/normal thresholds
+            _ => rng.below(700),
+        };
+        match rng.below(if long { 12 } else { 20 }) {
+            0..=5 => {
+                let k = pick_block(rng, tip);
+                let peer = rng.range(1, peers);
+                let before = sim.t.total_inflight_count();
+                sim.insert(out, now, peer, k);
+                if sim.t.total_inflight_count() == before {
+                    refused += 1;
+                }
+                out.count("inflight-insert");
+            }
+            6..=9 => {
+                // arrival: usually of a block that is in flight
+                let d = dump_of(&sim.t);
+                let k = if !d.states.is_empty() && rng.chance(4, 5) { *d.states.keys().nth(rng.below(d.states.len() as u64) as usize).unwrap() } else { pick_block(rng, tip) };
+                sim.rmblock(out, now, k);
+                if rng.chance(1, 3) {
+                    tip += 1;
+                }
+                out.count("inflight-rmblock");
+            }
+            10 | 11 => {
+                let before = sim.t.total_inflight_count();
+                let np = dump_of(&sim.t).scheds.len();
+                sim.prune(out, now, tip);
+                if sim.t.total_inflight_count() < before {
+                    timeouts += 1;
+                }
+                if dump_of(&sim.t).scheds.len() < np {
+                    evicted += 1;
+                }
+                out.count("inflight-prune");
+            }
+            12..=14 => {
+                sim.rmpeer(out, rng.range(1, peers + 1));
+                out.count("inflight-rmpeer");
+            }
+            15 | 16 => {
+                sim.mark(out, now, tip);
+                out.count("inflight-mark");
+            }
+            _ => {
+                tip += rng.below(3);
+            }
+        }
+    }
+    if timeouts > 0 && refused > 0 {
+        out.nontrivial(format!("inflight peers={peers} blocks={blocks} timeouts={timeouts} refused={refused} evicted={evicted}"));
+    }
+    if evicted > 0 {
+        out.count("inflight-case-with-eviction");
+    }
+}
+
+fn inflight_replay(out: &mut Out, ops: &[String]) {
+    let mut sim = InflightSim::new();
+    for line in ops {
+        let t: Vec<&str> = line.split_whitespace().collect();
+        let n = |i: usize| -> u64 { t[i].parse().unwrap() };
+        match t[0] {
+            "case" => {
+                out.begin_case(&t[2..].join(" "));
+                drop(sim);
+                sim = InflightSim::new();
+            }
+            "insert" => sim.insert(out, n(1), n(2), (n(3), n(4))),
+            "rmpeer" => sim.rmpeer(out, n(1)),
+            "rmblock" => sim.rmblock(out, n(1), (n(2), n(3))),
+            "prune" => sim.prune(out, n(1), n(2)),
+            "mark" => sim.mark(out, n(1), n(2)),
+            "consts" => out.op("consts", &consts_line()),
+            other => panic!("C17 inflight replay: unknown op {other}"),
+        }
+    }
+}
+
+fn consts_line() -> String {
+    use ckb_constant::sync::*;
+    let size = MAX_BLOCKS_IN_TRANSIT_PER_PEER * 4;
+    format!(
+        "{} {} {} {} {} {} {} {}",
+        BLOCK_DOWNLOAD_TIMEOUT,
+        INIT_BLOCKS_IN_TRANSIT_PER_PEER,
+        MAX_BLOCKS_IN_TRANSIT_PER_PEER,
+        MAX_OUTBOUND_PEERS_TO_PROTECT_FROM_DISCONNECT,
+        size,
+        size / 3,
+        size * 4 / 5,
+        size * 9 / 10
+    )
+}
+
+fn run_inflight(opts: &Opts, out: &mut Out) -> &'static str {
+    let mut rng = Rng::new(opts.seed);
+    out.begin_case("inflight constants");
+    out.op("consts", &consts_line());
+    let (cases, longs) = if opts.thorough() { (12_000, 12) } else { (1_200, 2) };
+    for _ in 0..cases * opts.scale as usize {
+        let n = rng.range(10, 60) as usize;
+        inflight_case(out, &mut rng, n, false);
+    }
+    // long runs: more than TIME_TRACE_SIZE arrivals so that the time analyzer re-sorts its window
+    for _ in 0..longs * opts.scale as usize {
+        inflight_case(out, &mut rng, 3_000, true);
+    }
+    "inflight: a case with at least one time-out removal and one refused duplicate request (distinct by peers/blocks/counts)"
+}
+
+// =================================================================================================
+// headermap
+// =================================================================================================
+
+struct HmSim {
+    map: HeaderMap,
+    plain: BTreeMap<u64, u64>,
+    keys: Vec<u64>,
+}
+
+fn view(k: u64, v: u64) -> HeaderIndexView {
+    HeaderIndexView::new(h(k), v, EpochNumberWithFraction::new(v % 7, 0, 1), v * 3, h(k + 1000), U256::from(v))
+}
+
+impl HmSim {
+    fn tail(&self) -> String {
+        let mem: Vec<u64> = self.map.verif_memory_keys().iter().map(unh).collect();
+        let back: BTreeSet<u64> = self.keys.iter().copied().filter(|k| self.map.verif_backend_contains(&h(*k))).collect();
+        format!("mem={} back={}", show(mem), show(back))
+    }
+    fn check_tiers(&self, out: &mut Out, what: &str) {
+        let back = self.keys.iter().filter(|k| self.map.verif_backend_contains(&h(**k))).count();
+        if back != self.map.verif_backend_len() {
+            out.oracle_fail("headermap-backend-count", &format!("{what}: counter={} keys={back}", self.map.verif_backend_len()));
+        }
+    }
+    fn insert(&mut self, out: &mut Out, k: u64, v: u64) {
+        let r = self.map.insert(view(k, v));
+        self.plain.insert(k, v);
+        let op = format!("insert {k} {v}");
+        out.op(&op, &format!("{} {}", if r.is_some() { "hit" } else { "miss" }, self.tail()));
+        self.check_tiers(out, &op);
+    }
+    fn get(&mut self, out: &mut Out, k: u64) {
+        let r = self.map.get(&h(k));
+        let op = format!("get {k}");
+        let got = r.as_ref().map(|x| x.number());
+        if got != self.plain.get(&k).copied() {
+            out.oracle_fail("headermap-get-differs-from-plain-map", &format!("{op}: got={got:?} plain={:?}", self.plain.get(&k)));
+        }
+        if let Some(x) = &r {
+            if *x != view(k, x.number()) {
+                out.oracle_fail("headermap-value-corrupted", &op);
+            }
+        }
+        out.op(&op, &format!("{} {}", got.map(|x| x.to_string()).unwrap_or("none".into()), self.tail()));
+        self.check_tiers(out, &op);
+    }
+    fn contains(&mut self, out: &mut Out, k: u64) {
+        let r = self.map.contains_key(&h(k));
+        let op = format!("contains {k}");
+        if r != self.plain.contains_key(&k) {
+            out.oracle_fail("headermap-contains-differs-from-plain-map", &format!("{op}: got={r}"));
+        }
+        out.op(&op, &format!("{r} {}", self.tail()));
+    }
+    fn remove(&mut self, out: &mut Out, k: u64) {
+        self.map.remove(&h(k));
+        self.plain.remove(&k);
+        let op = format!("remove {k}");
+        out.op(&op, &format!("ok {}", self.tail()));
+        self.check_tiers(out, &op);
+    }
+    fn spill(&mut self, out: &mut Out) {
+        self.map.verif_limit_memory();
+        out.op("spill", &format!("ok {}", self.tail()));
+        self.check_tiers(out, "spill");
+    }
+    /// back to the empty map without re-opening sled (not part of the op stream)
+    fn reset(&mut self) {
+        for k in self.keys.clone() {
+            self.map.remove(&h(k));
+        }
+        self.plain.clear();
+        assert!(self.map.verif_memory_keys().is_empty() && self.map.verif_backend_len() == 0, "reset leaves an empty map");
+    }
+}
+
+fn hm_new(dir: &std::path::Path, limit: usize, nkeys: u64) -> HmSim {
+    std::fs::create_dir_all(dir).unwrap();
+    HmSim { map: HeaderMap::verif_new(Some(dir), limit, Arc::new(AtomicBool::new(true))), plain: BTreeMap::new(), keys: (1..=nkeys).collect() }
+}
+
+fn hm_apply(out: &mut Out, sim: &mut HmSim, code: usize, nkeys: usize, fresh: &mut u64) -> bool {
+    // codes: [0,n) insert k; [n,2n) get k; [2n,3n) contains k; [3n,4n) remove k; 4n spill
+    let k = (code % nkeys) as u64 + 1;
+    match code / nkeys {
+        0 => {
+            *fresh += 1;
+            sim.insert(out, k, *fresh);
+        }
+        1 => sim.get(out, k),
+        2 => sim.contains(out, k),
+        3 => sim.remove(out, k),
+        _ => {
+            sim.spill(out);
+            return true;
+        }
+    }
+    false
+}
+
+fn run_headermap(opts: &Opts, out: &mut Out) -> &'static str {
+    let mut rng = Rng::new(opts.seed);
+    let base = crate::node::scratch_dir(&opts.out, "c17hm");
+    let (xlen, cases) = if opts.thorough() { (5, 20_000) } else { (4, 2_000) };
+    // bounded-exhaustive: 3 keys, every op sequence, limits 1 and 2
+    for limit in [1usize, 2] {
+        let nkeys = 3usize;
+        let mut sim = hm_new(&base.join(format!("x{limit}")), limit, nkeys as u64);
+        let alpha = 4 * nkeys + 1;
+        let mut idx = vec![0usize; xlen];
+        for len in 1..=xlen {
+            idx.iter_mut().for_each(|i| *i = 0);
+            'seqs: loop {
+                sim.reset();
+                out.begin_case(&format!("headermap exhaustive limit={limit} {:?}", &idx[..len]));
+                out.op(&format!("cfg {limit}"), "ok");
+                let mut fresh = 0u64;
+                let mut spilled = false;
+                for c in &idx[..len] {
+                    spilled |= hm_apply(out, &mut sim, *c, nkeys, &mut fresh) && sim.map.verif_backend_len() > 0;
+                }
+                if spilled {
+                    out.nontrivial(format!("hm-x {limit} {:?}", &idx[..len]));
+                }
+                let mut k = len;
+                loop {
+                    if k == 0 {
+                        break 'seqs;
+                    }
+                    k -= 1;
+                    idx[k] += 1;
+                    if idx[k] < alpha {
+                        break;
+                    }
+                    idx[k] = 0;
+                }
+            }
+        }
+    }
+    // random long sequences, spills anywhere
+    for limit in [1usize, 2, 3, 5] {
+        let nkeys = 8usize;
+        let mut sim = hm_new(&base.join(format!("r{limit}")), limit, nkeys as u64);
+        for _ in 0..(cases / 4) * opts.scale as usize {
+            sim.reset();
+            out.begin_case(&format!("headermap random limit={limit}"));
+            out.op(&format!("cfg {limit}"), "ok");
+            let mut fresh = 0u64;
+            let mut backend_hits = 0;
+            for _ in 0..60 {
+                let code = if rng.chance(1, 6) { 4 * nkeys } else { rng.below(4 * nkeys as u64) as usize };
+                let before = sim.map.verif_backend_len();
+                hm_apply(out, &mut sim, code, nkeys, &mut fresh);
+                if code / nkeys == 1 && sim.map.verif_backend_len() < before {
+                    backend_hits += 1;
+                }
+                out.count(match code / nkeys {
+                    0 => "hm-insert",
+                    1 => "hm-get",
+                    2 => "hm-contains",
+                    3 => "hm-remove",
+                    _ => "hm-spill",
+                });
+            }
+            if backend_hits > 0 {
+                out.nontrivial(format!("hm-r {limit} {fresh} {backend_hits} {}", sim.tail()));
+            }
+        }
+    }
+    let _ = std::fs::remove_dir_all(&base);
+    "headermap: exhaustive cases in which a spill moved entries to the backend (distinct by op sequence); random cases in which a get was answered from the backend"
+}
+
+fn headermap_replay(opts: &Opts, out: &mut Out, ops: &[String]) {
+    let base = crate::node::scratch_dir(&opts.out, "c17hmr");
+    let mut sim: Option<HmSim> = None;
+    let mut n = 0;
+    for line in ops {
+        let t: Vec<&str> = line.split_whitespace().collect();
+        match t[0] {
+            "case" => {
+                out.begin_case(&t[2..].join(" "));
+                sim = None;
+            }
+            "cfg" => {
+                n += 1;
+                sim = Some(hm_new(&base.join(format!("m{n}")), t[1].parse().unwrap(), 64));
+                out.op(line, "ok");
+            }
+            "insert" => sim.as_mut().expect("cfg first").insert(out, t[1].parse().unwrap(), t[2].parse().unwrap()),
+            "get" => sim.as_mut().expect("cfg first").get(out, t[1].parse().unwrap()),
+            "contains" => sim.as_mut().expect("cfg first").contains(out, t[1].parse().unwrap()),
+            "remove" => sim.as_mut().expect("cfg first").remove(out, t[1].parse().unwrap()),
+            "spill" => sim.as_mut().expect("cfg first").spill(out),
+            other => panic!("C17 headermap replay: unknown op {other}"),
+        }
+    }
+    drop(sim);
+    let _ = std::fs::remove_dir_all(&base);
+}
+
+// =================================================================================================
+
+pub fn run(opts: &Opts) {
+    let mode = opts.extra.first().map(|s| s.as_str()).unwrap_or("");
+    let mut out = Out::new(&opts.out);
+    if let Some(p) = &opts.replay {
+        let ops = read_replay_ops(p);
+        // corpus files are offered to every stream: take only those of this sub-mode
+        let label = ops.first().map(|l| l.split_whitespace().nth(2).unwrap_or("").to_string()).unwrap_or_default();
+        if label == mode {
+            match mode {
+                "orphan" => orphan_replay(&mut out, &ops),
+                "skip" => skip_replay(&mut out, &ops),
+                "inflight" => inflight_replay(&mut out, &ops),
+                "headermap" => headermap_replay(opts, &mut out, &ops),
+                _ => panic!("C17: unknown sub-mode {mode}"),
+            }
+        }
+        out.finish("replay");
+        return;
+    }
+    let rule = match mode {
+        "orphan" => run_orphan(opts, &mut out),
+        "skip" => run_skip(opts, &mut out),
+        "inflight" => run_inflight(opts, &mut out),
+        "headermap" => run_headermap(opts, &mut out),
+        _ => {
+            eprintln!("C17: sub-mode orphan|skip|inflight|headermap expected");
+            std::process::exit(2);
+        }
+    };
+    out.finish(rule);
 }
